@@ -22,6 +22,9 @@ HERE = os.path.dirname(os.path.abspath(__file__))
 SPEC = os.path.join(V.SPEC, "Debugger")
 SOURCE = '.test "t" {\n    ldx #1\n    w: jmp w\n    brk\n}\n'      # never ends: the test is still running (or paused) at shutdown
 LOOP_LINE = 3
+# fifth session state: the session thread is busy inside DAP `next` over a call that never returns
+BUSY_SOURCE = '.test "t" {\n    ldx #1\n    jsr spin\n    brk\n    spin: jmp spin\n}\n'
+JSR_LINE = 3
 
 
 def local_findings(rep, prop):
@@ -38,9 +41,9 @@ def local_findings(rep, prop):
 def scenarios(rnd, reps):
     out, i = [], 0
     for rep in range(reps):
-        for state in ("none", "idle", "running", "paused"):
+        for state in ("none", "idle", "running", "paused", "busy"):
             for mode in ("shutdown_exit", "close", "shutdown_close"):
-                for order in (("no_dap",) if state == "none" else ("dap_never", "dap_first", "dap_between", "dap_drop_first")):
+                for order in (("no_dap",) if state == "none" else ("dap_never", "dap_drop_first") if state == "busy" else ("dap_never", "dap_first", "dap_between", "dap_drop_first")):
                     if order == "dap_between" and mode == "close":
                         continue
                     i += 1
@@ -63,11 +66,11 @@ def panics(stderr):
 
 def run_one(mos, sc, bound):
     d = V.fresh_dir("C20-run-%d" % sc["id"])
-    src = D.write_project(d, SOURCE)
+    src = D.write_project(d, BUSY_SOURCE if sc["state"] == "busy" else SOURCE)
     trace = os.path.join(d, "life.ndjson")
     port = D.free_port()
     m = D.MosLsp(mos, d, port, env={"MOS_VERIF_TRACE": trace})
-    obs = {"id": sc["id"], "state": sc["state"], "mode": sc["mode"], "order": sc["order"], "setup": "ok"}
+    obs = {"id": sc["id"], "state": sc["state"], "mode": sc["mode"], "order": sc["order"], "setup": "ok", "shutdownReply": True}
     dap = None
     try:
         if not m.initialize():
@@ -78,15 +81,18 @@ def run_one(mos, sc, bound):
             r = dap.request("initialize", {"adapterID": "mos", "linesStartAt1": True, "columnsStartAt1": True}, 5)
             if not (r and r.get("success")):
                 obs["setup"] = "DAP initialize failed"
-            if sc["state"] in ("running", "paused") and obs["setup"] == "ok":
+            if sc["state"] in ("running", "paused", "busy") and obs["setup"] == "ok":
                 r = dap.request("launch", {"workspace": d, "testRunner": {"testCaseName": "t"}}, 5)
                 ok = r and r.get("success")
-                if ok and sc["state"] == "paused":
-                    r = dap.request("setBreakpoints", {"source": {"path": src}, "breakpoints": [{"line": LOOP_LINE}]}, 5)
+                if ok and sc["state"] in ("paused", "busy"):
+                    r = dap.request("setBreakpoints", {"source": {"path": src}, "breakpoints": [{"line": JSR_LINE if sc["state"] == "busy" else LOOP_LINE}]}, 5)
                 r = dap.request("configurationDone", None, 5)
                 ok = ok and r and r.get("success")
-                if ok and sc["state"] == "paused":
+                if ok and sc["state"] in ("paused", "busy"):
                     ok = dap.wait_event(["stopped"], 5) is not None
+                if ok and sc["state"] == "busy":
+                    dap.send("next", {"threadId": 1})       # never answered: step_over loops on the session thread
+                    time.sleep(0.05)
                 if not ok:
                     obs["setup"] = "launch failed"
         time.sleep(dl[0])
@@ -105,7 +111,7 @@ def run_one(mos, sc, bound):
             time.sleep(dl[1])
         t_end = None
         if sc["mode"] in ("shutdown_exit", "shutdown_close"):
-            obs["shutdown_reply"] = m.request("shutdown", None, 5) is not None
+            obs["shutdownReply"] = m.request("shutdown", None, 3) is not None
             time.sleep(dl[2])
             if sc["order"] == "dap_between":
                 dap_leave("disconnect")
@@ -165,6 +171,9 @@ def design_level(rep):
                        ("cex_accept", "JoinBlockedInAccept: with the unwrap repaired, Terminates fails (join waits on a thread in accept())"),
                        ("cex_late", "SessionIgnoresFlag: a session registered after the handlers were invoked keeps the process alive"),
                        ("cex_select", "SignalPanicsDebugThread: the debug thread dies on the shutdown signal"),
+                       ("cex_busy", "BusyStepBlocksJoin: with the unwrap repaired, a session thread busy in a step that never returns cannot be joined"),
+                       ("cex_rendezvous", "hypothetical RendezvousSignal: `shutdown` cannot complete while the session thread is busy (Terminates fails)"),
+                       ("vac_busy", "a behaviour that reaches `shutdown` with the session thread busy in a step exists"),
                        ("vac_paused", "a behaviour with a paused test exists"), ("vac_joined", "a behaviour that joins the debug thread exists")):
         r = V.tlc(mc, cfg=os.path.join(SPEC, "MC_Shutdown_%s.cfg" % name), workers=2, timeout=600, tag="C20-mc-" + name)
         rep.add_tlc(r)
@@ -213,7 +222,7 @@ def main(tier):
     for i, o in sorted(results.items()):
         if o["setup"] != "ok":
             continue
-        recs.append({k: o[k] for k in ("id", "state", "mode", "order", "rc", "ms", "bound", "portAfter", "panicAt", "blocked", "life", "others")})
+        recs.append({k: o[k] for k in ("id", "state", "mode", "order", "rc", "ms", "bound", "portAfter", "panicAt", "blocked", "life", "others", "shutdownReply")})
     # binding self-test: a corrupted observation must be rejected (status 3 after shutdown+exit; a hang)
     probes = [dict(recs[0], id=10 ** 6, mode="shutdown_exit", rc=3, panicAt="", life=[], others=[]), dict(recs[0], id=10 ** 6 + 1, rc=-1, blocked=["futex_do_wait"], life=[], others=[])]
     verdicts, st = V.judge(os.path.join(SPEC, "ShutdownTrace.tla"), recs + probes, cfg=os.path.join(SPEC, "ShutdownTrace.cfg"), tag="C20-judge", timeout=600)
@@ -234,7 +243,7 @@ def main(tier):
     rep.cov["traces_validated_against_impl"] = len(recs)
     rep.cov["evaluations"] = len(recs)
     rep.cov["distinct_nontrivial"] = len({(r["state"], r["mode"], r["order"]) for r in recs})
-    rep.cov["rule"] = ("real `mos lsp` processes: session state {no debugger, attached idle, test running, test paused} x {shutdown+exit, pipe closed, shutdown then pipe closed} x "
+    rep.cov["rule"] = ("real `mos lsp` processes: session state {no debugger, attached idle, test running, test paused, session thread busy inside a `next` that never returns} x {shutdown+exit, pipe closed, shutdown then pipe closed} x "
                        "{debugger stays, disconnects first, disconnects between shutdown and exit, socket dropped first} with seeded delays; distinct = distinct (state, mode, order)")
     rep.cov["life_events_replayed"] = replayed
     rep.cov["exit_status_histogram"] = {str(k): sum(1 for r in recs if r["rc"] == k) for k in sorted({r["rc"] for r in recs})}
